@@ -186,6 +186,13 @@ End C12MerchantId.
         steps.append((e.args[0].value, slots[e.args[1].id]))
         e = e.func.value
     steps.reverse()  # application order
+    # the assembled text must be written as is: no assignment to final_html outside the two branches
+    inside = {id(n) for n in ast.walk(ifs[0])}
+    for n in walk_no_nested(w):
+        tg = n.targets if isinstance(n, ast.Assign) else [n.target] if isinstance(n, (ast.AugAssign, ast.AnnAssign)) else []
+        if any(isinstance(t, ast.Name) and t.id == 'final_html' for t in tg) and id(n) not in inside:
+            raise Untranslatable(f'report.py line {n.lineno}: final_html is modified after it was assembled '
+                                 '(a later replacement rescans the inserted data)')
     # the final text written must be final_html as is
     # ---- figure bindings ----------------------------------------------------------------
     ap = os.path.join(src_dir, 'analyzer.py')
@@ -222,6 +229,35 @@ Definition binds_json : list (string * string) := {blist(binds['json'])}%string.
 End C12Embed.
 '''
     return {'Gen/C12MerchantId.v': mid, 'Gen/C12Embed.v': emb}
+
+
+def replaced_texts(src_dir):
+    """Every constant text that write_summary_file_vue replaces in the template/document (first argument of a
+    .replace whose receiver chain starts at html_template or final_html) plus every /* MARKER */ of the template."""
+    import re
+    out = []
+    rp = os.path.join(src_dir, 'report.py')
+    mod = ast.parse(open(rp, encoding='utf-8').read(), rp)
+    w = find_func(mod.body, 'write_summary_file_vue', 'report.py')
+    for n in ast.walk(w):
+        if isinstance(n, ast.Call) and isinstance(n.func, ast.Attribute) and n.func.attr == 'replace' and n.args and \
+                isinstance(n.args[0], ast.Constant) and isinstance(n.args[0].value, str):
+            e = n.func.value
+            while isinstance(e, ast.Call) and isinstance(e.func, ast.Attribute):
+                e = e.func.value
+            if isinstance(e, ast.Name) and e.id in ('html_template', 'final_html'):
+                out.append(n.args[0].value)
+    try:
+        tpl = open(os.path.join(src_dir, 'spending_report.html'), encoding='utf-8').read()
+        out += re.findall(r'/\*\s*[A-Za-z0-9_ ]*PLACEHOLDER[A-Za-z0-9_ ]*\*/', tpl)
+    except OSError:
+        pass
+    seen, res = set(), []
+    for x in out:
+        if x and x not in seen:
+            seen.add(x)
+            res.append(x)
+    return res
 
 
 if __name__ == '__main__':
